@@ -8,7 +8,7 @@
    in C17_filter_invisible) is NOT unit-covariant: see the known finding K-C09-assembly-cutoff. *)
 From Coq Require Import ZArith QArith Qabs Reals List Bool Arith.
 From Inkfem Require Import Num.NumOps Gen.GenStiffness Gen.GenLoads Gen.GenRecover Spec.Stiffness
-  Model.Types Proofs.StiffnessQ Proofs.UnitsProofs.
+  Model.Types Proofs.StiffnessQ Proofs.UnitsProofs Gen.GenSolver Gen.GenAccept Proofs.SolverProofs Proofs.AcceptBound.
 Import ListNotations.
 
 Theorem C09_stiffness_units_R : forall (L c s t1 t2 E A I lam phi x1 y1 r1 x2 y2 r2 : R),
@@ -50,3 +50,23 @@ Theorem C09_stiffness_units_Q : forall (L c s t1 t2 E A I lam phi x1 y1 r1 x2 y2
       (scale_force lam phi (mv (stiff_gen (O:=QOps) L c s t1 t2 E A I) d)))%Q.
 Proof. exact stiff_units_Q. Qed.
 Print Assumptions C09_stiffness_units_Q.
+
+(* the --error option is a force: what solve makes of it (Gen/GenSolver.v, regenerated from
+   process/solve_displacements.go) converts with the force factor, with no absolute floor or cap:
+   the tolerance handed to the iterative solver and the bound of the acceptance test in the new unit
+   system are the old ones times phi.  The iteration budget sees the number of equations only. *)
+Theorem C09_solver_tolerance_converts_with_the_force_unit : forall phi e : Q,
+  (solver_tolerance (O:=QOps) (phi * e) == phi * solver_tolerance (O:=QOps) e)%Q.
+Proof. exact solver_tolerance_units. Qed.
+Print Assumptions C09_solver_tolerance_converts_with_the_force_unit.
+
+Theorem C09_acceptance_bound_converts_with_the_force_unit : forall phi e : Q,
+  (accept_bound (O:=QOps) (phi * e) == phi * accept_bound (O:=QOps) e)%Q.
+Proof. exact accept_bound_units. Qed.
+Print Assumptions C09_acceptance_bound_converts_with_the_force_unit.
+
+(* what the solver is asked for is positive and never looser than what will be accepted *)
+Theorem C09_solver_aims_within_the_requested_error : forall e : Q, (0 < e ->
+  0 < solver_tolerance (O:=QOps) e /\ solver_tolerance (O:=QOps) e <= accept_bound (O:=QOps) e)%Q.
+Proof. intros e He. split; [apply solver_tolerance_positive; exact He | apply solver_tolerance_within_bound; apply Qlt_le_weak; exact He]. Qed.
+Print Assumptions C09_solver_aims_within_the_requested_error.
